@@ -16,7 +16,7 @@ class FileNotFoundError(Exception):
 def _get_first_existing_path(leaf, dirs):
     for directory in dirs:
         path = os.path.join(directory, leaf)
-        if os.path.exists(path):
+        if os.path.isfile(path):
             return path
 
 
@@ -56,7 +56,7 @@ class FileProcessor(object):
 
         Can be called multiple times during file processor lifetime.
         '''
-        if not os.path.exists(path):
+        if not os.path.isfile(path):
             raise FileNotFoundError(path)
         with push_dir(self.include_dirs, os.path.dirname(path)):
             return self._process_file(path)
